@@ -24,6 +24,7 @@ def run(ctx):
     E.r_cancel_clears(prog, rep)
     E.r_invalid_window(prog, rep)
     E.r_cancel_on_exit(prog, rep)
+    E.r_cancel_delegates(prog, rep)
     E.r_epoch_persist(prog, rep)
     T.r_complete_once(prog, rep)
     T.r_frontend_reset(prog, rep)
